@@ -34,6 +34,17 @@ def call0(obj, name):
     return ('call', ('member', obj, name, False), [])
 
 
+def subst(node, env):
+    """replace ('id', name) by env[name] everywhere in an AST"""
+    if isinstance(node, tuple):
+        if len(node) == 2 and node[0] == 'id' and node[1] in env:
+            return env[node[1]]
+        return tuple(subst(x, env) for x in node)
+    if isinstance(node, list):
+        return [subst(x, env) for x in node]
+    return node
+
+
 class Lower:
     def __init__(self, where, var):
         self.where = where      # 'method' | 'class' | 'entry'
@@ -41,6 +52,7 @@ class Lower:
         self.method = None      # in the entry loop: the local bound to methods[entry.method_index]
         self.spec = None        # in the entry loop: the local bound to method.dispatch_table[entry.group_index]
         self.word = None        # in the entry loop: a local std::uintptr_t
+        self.palias = {}        # locals that merely name a pointer the loop variable holds (substituted before matching)
 
     def bad(self, msg, node):
         raise mc.Unsupported('install_gv (%s loop): %s: %s' % (self.where, msg, mc.show(node)))
@@ -89,7 +101,7 @@ class Lower:
         stmts = nonempty(stmts)
         i = 0
         while i < len(stmts):
-            st = stmts[i]
+            st = subst(stmts[i], self.palias) if self.palias else stmts[i]
             # auto strides_iter = std::copy(m.slots..., slots_strides_ptr); std::copy(m.strides..., strides_iter);
             if self.where == 'method' and st[0] == 'decl' and len(st[2]) == 1 and st[2][0][1] is not None and st[2][0][1][:2] == ('call', ('id', 'std::copy')):
                 name, init = st[2][0]
@@ -114,8 +126,18 @@ class Lower:
 
     def s(self, st):
         k = st[0]
+        if (k == 'decl' and len(st[2]) == 1 and self.where == 'method'
+                and st[2][0][1] == ('member', ('member', ('id', self.var), 'info', False), 'slots_strides_ptr', True)):
+            self.palias[st[2][0][0]] = st[2][0][1]       # const auto p = m.info->slots_strides_ptr;
+            return 'GSkip'
+        if self.palias:
+            st = subst(st, self.palias)
+        k = st[0]
         if k == 'block':
             return self.seq(st[1])
+        if (k == 'rangefor' and self.where == 'method' and isinstance(st[1], str) and st[2] == ('member', ('id', self.var), 'dispatch_table', False)
+                and nonempty(st[3][1] if st[3][0] == 'block' else [st[3]]) == [('expr', ('assign', '=', ('un', '*', ('post', '++', ('id', 'gv_iter'))), ('member', ('id', st[1]), 'pf', True)))]):
+            return 'GEmitTable'                          # for (auto spec : m.dispatch_table) *gv_iter++ = spec->pf;
         if k == 'continue':
             return 'GContinue'
         if k == 'if' and not st[1]:
